@@ -3,10 +3,14 @@ import os
 from sqlite_dissect.file.database.page import BTreePage
 
 from ..gen import histories as H, sqlite_factory as F
+from ..translate import pyfun
 from . import dbcommon as C, specvalid as V
 
 ID = "C06"
-LEAN_MODULES = ["SqliteDissect.Properties.C06", "SqliteDissect.Properties.C06Census", "SqliteDissect.Properties.C16", "SqliteDissect.Properties.C01Tree"]
+LEAN_MODULES = ["SqliteDissect.Properties.C06", "SqliteDissect.Properties.C06Census", "SqliteDissect.Properties.C16", "SqliteDissect.Properties.C01Tree",
+                "SqliteDissect.Properties.GenPage"]
+TRANSLATORS = [pyfun]
+TRUSTED_EXTRA = [pyfun.TRUSTED]
 RULE = ("factory databases (grid as C01, churn leaving freeblocks / fragments / freelist pages / pointer-map pages) "
         "and WAL histories; per version the page census (version.pages) and every b-tree page layout are compared "
         "with the Lean model and with SQLite's dbstat, page_count, freelist_count and integrity_check. "
